@@ -148,6 +148,7 @@ pub fn build<'a>(ch: &'a mut Chooser, cfg: &RunCfg) -> Sim<'a> {
             wire: BTreeMap::new(),
             dialing: BTreeMap::new(),
             gt: oracle::Truth::default(),
+            made_private: Default::default(),
         });
     }
     let mut puppets = Vec::new();
